@@ -83,11 +83,11 @@ def run_cfg(chk, facts, cfg):
             sx, paths = summ(f, ['self', 'a', 'b'], [by_ref(pstate), None, None])
             chk.saw(facts, f, paths=len(paths))
             probs = []
-            oks = [p for p in paths if p.is_ret()]
-            if len(paths) != 1 or len(oks) != 1 or unwrap_ok(oks[0].ret) is None:
-                probs.append('%d paths' % len(paths))
-            else:
-                post = find_ariths(sm, oks[0].effects['self'])
+            oks = [p for p in paths if p.is_ret() and unwrap_ok(p.ret) is not None]
+            if not oks or len(oks) != len(paths):
+                probs.append('%d paths, %d returning Ok' % (len(paths), len(oks)))
+            for pth in oks:
+                post = find_ariths(sm, pth.effects['self'])
                 d, pr = step_increment(sm, pstate[3][0], post[0][1])
                 probs += pr
                 if not is_increment(sm, d, T.op('sub', A, B)):
@@ -110,8 +110,8 @@ def run_cfg(chk, facts, cfg):
             return None
         c, (apath, hav) = cells[0][0], cells[0][1][0]
         probs = []
-        if len(rec['steps']) != 1:
-            probs.append('%d continuing paths per iteration' % len(rec['steps']))
+        if not rec['steps']:
+            probs.append('no continuing path through the loop body')
         for st in rec['steps']:
             nexts = [e for e in st['events'] if e[0] == 'next']
             want_n = 2 if lockstep else 1
@@ -339,10 +339,10 @@ def run_cfg(chk, facts, cfg):
             chk.saw(facts, f, paths=len(paths))
             probs = []
             oks = [p for p in paths if p.is_ret() and unwrap_ok(p.ret) is not None]
-            if len(paths) != 1 or len(oks) != 1:
+            if not oks or len(oks) != len(paths):
                 probs.append('%d paths (%d Ok)' % (len(paths), len(oks)))
-            else:
-                post = oks[0].effects['self']
+            for pth in oks:
+                post = pth.effects['self']
                 for comp, inc in expect:
                     pre = sa if comp == 'a' else sb
                     po = post[3][roles[0] if comp == 'a' else roles[1]]
